@@ -175,6 +175,24 @@ Theorem C12_unwrap_num_each_once :
 Proof. exact @unwrap_num_each_once. Qed.
 Print Assumptions C12_unwrap_num_each_once.
 
+(* Wrappers constructed under eqx.filter_vmap (BijectionReparam, Lambda: their integer _dummy array then has a leading axis
+   of size n): unwrapping gives the STACK over i of the unwrapped i-th slice (every array field sliced along axis 0, other
+   fields shared).  The slices carry the remaining batch axes, so iterating this equation covers any number of levels. *)
+Theorem C12_unwrap_vmapped :
+  forall (A : Type) (O : NumOps A) (Sp T : Type) (bij_of : T -> option (bcls * list nat)) (fn_of : Sp -> option fid)
+         (tuple_tag : T) (k : wlabel) (l : list (@vtree A Sp T)) (kd : akind) (d : tensor A) (n : nat) (sh : list nat),
+  dummy_of Sp T k l = Some (kd, d) -> is_array kd = true -> tshape d = n :: sh ->
+  wapply O Sp T bij_of fn_of tuple_tag k l =
+  match mapM (fun i => match mapM (slice_tree Sp T i) l with
+                       | Some li => wapply O Sp T bij_of fn_of tuple_tag k li
+                       | None => None
+                       end) (seq 0 n) with
+  | Some (r0 :: rs) => Some (stack_like Sp T n r0 (r0 :: rs))
+  | _ => None
+  end.
+Proof. exact @wapply_vmapped. Qed.
+Print Assumptions C12_unwrap_vmapped.
+
 (* conditioners (get_ravelled_pytree_constructor): the number of parameters is the number of inexact array elements
    not below a NonTrainable; whatever vector the conditioner outputs, the constructed transformer re-partitions into
    the ORIGINAL static half (frozen leaves are not parameterised); the zero vector gives the initial pytree *)
@@ -225,6 +243,11 @@ Example C12_example_unwrap :
   unwrap_trace_num ZOps nat nat ex_bij_of ex_fn_of 0 ex_tree = Some ex_trace /\
   cleanb ex_tree = false /\ cleanb ex_unwrapped = true.
 Proof. vm_compute. repeat split; reflexivity. Qed.
+Example C12_example_vmapped :
+  unwrap_num ZOps nat nat ex_bij_of ex_fn_of 0
+    (W (1%Z, Lambda) [Static 0; Node 0 [Arr KFloat (mkT [2; 2] [1; 2; 3; 4]%Z)]; Node 1 []; Arr KInt (mkT [2] [0; 0]%Z)])
+  = Some (Arr KFloat (mkT [2; 2] [2; 3; 4; 5]%Z)).
+Proof. vm_compute. reflexivity. Qed.
 Example C12_example_partition :
   part_num nat nat ex_tree = (ex_params, ex_static) /\ n_params nat nat ex_tree = 2 /\
   trainable_at is_nt [1; 1] ex_tree = false /\ trainable_at is_nt [0] ex_tree = true.
